@@ -134,6 +134,51 @@ func (w *World) findHelpers() {
 	}
 }
 
+// findCalledClosures: a function literal that is only ever called on the spot
+// (`func() { ... }()`, or bound to a local that is only called) inside a function
+// that is new or whose reviewed version had no such literal is a block of its
+// enclosing function written as a closure; it is treated like a transparent
+// helper. Only literals of functions whose number of closures differs from the
+// reviewed inventory are considered, so the reviewed tree is analysed as before.
+func (w *World) findCalledClosures() {
+	if !inventoryComplete {
+		return
+	}
+	for _, f := range w.lunarFns {
+		if f.Origin() != nil || f.Parent() != nil {
+			continue
+		}
+		fz, known := frozenNames[fnID(f)]
+		if known && fz.Closures == len(Anons(f))-1 {
+			continue
+		}
+		for _, af := range Anons(f)[1:] {
+			par := af.Parent()
+			var sites []ssa.CallInstruction
+			ok := true
+			for _, b := range par.Blocks {
+				for _, in := range b.Instrs {
+					mc, isMC := in.(*ssa.MakeClosure)
+					if !isMC || mc.Fn != ssa.Value(af) {
+						continue
+					}
+					for _, rr := range *mc.Referrers() {
+						c, isC := rr.(*ssa.Call)
+						if !isC || c.Call.Value != ssa.Value(mc) {
+							ok = false
+							continue
+						}
+						sites = append(sites, c)
+					}
+				}
+			}
+			if ok && len(sites) > 0 {
+				helpers[af] = &helper{fn: af, sites: sites}
+			}
+		}
+	}
+}
+
 // instrsWithHelpers visits the instructions of fn and, after each call of a
 // transparent helper, the helper's instructions (once per helper).
 func instrsWithHelpers(fn *ssa.Function, f func(ssa.Instruction), seen map[*ssa.Function]bool) {
